@@ -1335,6 +1335,19 @@ func c16GenStore(r *vf.Rand, malformed bool) c16Store {
 
 // the next store of a history: biased towards the interactions the property names
 func c16NextStore(r *vf.Rand, cur c16Store, malformed bool) c16Store {
+	if malformed && r.Chance(60) {
+		s := c16GenStore(r, true)
+		if s.Bad == "" {
+			s.Bad = vf.Pick(r, []string{"missing", "dir", "badblock", "badder", "wrongpw", "garbage", "truncated"})
+
+			if s.Bad == "wrongpw" && len(s.Blocks) != 0 {
+				s.Blocks[0].Enc = "encrypted"
+			}
+		}
+
+		return s
+	}
+
 	switch {
 	case len(cur.Blocks) == 0 || r.Chance(20):
 		return c16GenStore(r, malformed)
@@ -1348,9 +1361,11 @@ func c16NextStore(r *vf.Rand, cur c16Store, malformed bool) c16Store {
 				nb.XKid = fmt.Sprintf("pinned-%d", i)
 			}
 
-			if r.Chance(75) {
-				same := c16PoolIndex(s_kind(b.Key), s_size(b.Key))
-				nb.Key = vf.Pick(r, same)
+			switch x := r.Intn(100); {
+			case x < 60: // another key of the same type and size: same kid, same alg
+				nb.Key = vf.Pick(r, c16PoolIndex(s_kind(b.Key), s_size(b.Key)))
+			case x < 80: // same kid, another algorithm
+				nb.Key = vf.Pick(r, c16AllSupported())
 			}
 
 			s.Blocks = append(s.Blocks, nb)
